@@ -75,6 +75,8 @@ func checkC04(c *Ctx) {
 	c.Rule("C04-R2", "Tty contract order: Drain, NotifyResize(nil), wg.Wait dominate Stop; no write after Stop; Close only in finalize after disengage; finalize only from finish; finish only via sync.Once")
 	c.Rule("C04-R3", "engage re-applies mouse/paste/focus/title from the persistent fields; every toggler stores the persistent field and emits consistently, under the lock")
 	c.Rule("C04-R5", "mode strings come in pairs: the built-in fallback of the string that switches a mode off is assigned under the same conditions as the fallback of the string that switches it on; in engage the title is saved before it is set")
+	c.Rule("C04-R6", "a mode toggled while the screen is not running (suspended, or before Init) is remembered and not written: every emission of the mode togglers and of SetTitle is behind the running test (engage applies the remembered modes; a write to the stopped Tty would leave the mode on after Fini, whose teardown returns at once on a screen that is not running)")
+	c.Expect("C04-R6", 7)
 	c.Expect("C04-R5", 3)
 	c.Rule("C04-R4", "the remembered modes (mouse flags, paste, focus, title, cursor style and colour) are stored only by the application-facing togglers: nothing reachable from Suspend, Resume or Fini stores them")
 	c.Expect("C04-R4", 6)
@@ -436,6 +438,33 @@ func checkC04(c *Ctx) {
 			}
 		})
 		c.Check(okS && okE, "C04-R3", "SetTitle:store+emit", p.pos(st.Pos()), "title stored for Resume and emitted")
+	}
+	// R6: a mode toggled on a screen that is not running is remembered, not emitted: the write would go
+	// to a stopped Tty, and Fini's teardown (which returns at once on a screen that is not running)
+	// would never switch the mode off again; engage applies the remembered modes
+	for _, m := range []string{"EnableMouse", "DisableMouse", "EnablePaste", "DisablePaste", "EnableFocus", "DisableFocus", "SetTitle"} {
+		fn := p.Fn("tcell:(*tScreen)." + m)
+		if fn == nil {
+			c.Undecided("C04-R6", m, "-", "not found")
+			continue
+		}
+		n, bad := 0, ""
+		eachInstr(fn, func(in ssa.Instruction) {
+			if len(emitIdents(p, in)) == 0 {
+				return
+			}
+			n++
+			gated := false
+			for _, a := range guardsAt(in.Block()) {
+				if a.L == "t.running" && ((a.Op == "==" && a.R == "true") || (a.Op == "!=" && a.R == "false")) {
+					gated = true
+				}
+			}
+			if !gated {
+				bad += "emission at " + p.pos(in.Pos()) + " is not behind the running test; "
+			}
+		})
+		c.Check(n > 0 && bad == "", "C04-R6", m+":emits-only-while-running", p.pos(fn.Pos()), fmt.Sprintf("%d emission(s), each only on a running screen %s", n, bad))
 	}
 	if osc := p.Fn("tcell:(*tScreen).prepareExtendedOSC"); osc != nil {
 		checkPairedAssignment(c, p, osc, "C04-R5", "tcell.tScreen", "enableFocus", "disableFocus")
